@@ -344,6 +344,35 @@ def projOps (who : Bool) (ops : List (Bool × Op)) : List Op :=
 def projOuts {α : Type} (who : Bool) (outs : List (Bool × Option (Out α))) : List (Option (Out α)) :=
   (outs.filter (fun p => p.1 == who)).map (·.2)
 
+/-! ### the per-call-site state store (`Interpreter.instance_states`) -/
+
+/-- `instance_states`: state key ↦ the iterator kept for that key.  A memorable function called
+    at a call site looks its iterator up under the site's key (`unique_context_identifier` of the
+    `StructuredValue`, pinned to be `str(id(self))`: one key per parsed object) and builds it on
+    first use. -/
+abbrev Store (K α : Type) := K → Option (Iter α)
+
+/-- one consuming row at the call site whose key is `k`: fetch-or-create, `next()`, store back -/
+def storeStep {K α : Type} [DecidableEq K] (src : Src α) (rep : Bool) (st : Store K α) (k : K) :
+    Out α × Store K α :=
+  let it := (st k).getD (create src rep)
+  let r := next src it
+  (r.1, fun k' => if k' = k then some r.2 else st k')
+
+/-- a schedule of consuming rows, each named by the key of its call site -/
+def storeRun {K α : Type} [DecidableEq K] (src : Src α) (rep : Bool) : Store K α → List K →
+    List (K × Out α) × Store K α
+  | st, [] => ([], st)
+  | st, k :: ks =>
+    let r := storeStep src rep st k
+    let rs := storeRun src rep r.2 ks
+    ((k, r.1) :: rs.1, rs.2)
+
+/-- the same schedule written with call sites `S` and a key function (what the interpreter does) -/
+def siteRun {S K α : Type} [DecidableEq K] (key : S → K) (src : Src α) (rep : Bool) (sched : List S) :
+    List (S × Out α) :=
+  (sched.zip ((storeRun src rep (fun _ => none) (sched.map key)).1.map (·.2)))
+
 /-! ### update mode -/
 
 /-- Update mode: `build_update_recipe` creates ONE iterator over the input file at parse time
